@@ -1519,9 +1519,12 @@ class Engine:
         label = getattr(self, "stmt_labels", {}).get(id(s))
         if label and self.reg.ghost.get(self.fn.qname):
             from . import loops
+            alias = getattr(self, "stmt_alias", {}).get(id(s))
             for o in outs:
                 if o.kind == "normal":
                     loops.run_ghost(self, o.st, f"after:{label}", self.loop_stack[-1]["k"] if self.loop_stack else None)
+                    if alias:
+                        loops.run_ghost(self, o.st, f"after:{alias}", self.loop_stack[-1]["k"] if self.loop_stack else None)
         return outs
 
     def flush_raises(self, st: State) -> List[Outcome]:
